@@ -125,6 +125,15 @@ func (p *persistentStateStorage) SetState(term uint64, votedFor string) error {
 	if err := encodePersistentState(tmpFile, p.state); err != nil {
 		return fmt.Errorf("could not encode state: %w", err)
 	}
+
+	// Ensure the state is on disk and the file is closed before performing the rename.
+	if err := tmpFile.Sync(); err != nil {
+		return fmt.Errorf("could not sync temporary file: %w", err)
+	}
+	if err := tmpFile.Close(); err != nil {
+		return fmt.Errorf("could not close temporary file: %w", err)
+	}
+
 	filename := filepath.Join(p.stateDir, stateBase)
 	if err := os.Rename(tmpFile.Name(), filename); err != nil {
 		return fmt.Errorf("could not rename temporary file: %w", err)
